@@ -44,3 +44,21 @@ Proof. vm_compute. reflexivity. Qed.
 
 Lemma block_type_count : length block_type_names = 23%nat.
 Proof. vm_compute. reflexivity. Qed.
+
+(* ---------------------------------------------------------------- keyword case *)
+From MF Require Import Proofs.C05.
+
+(* every keyword pattern of every scanner's unless-table is closed under ASCII
+   letter case *)
+Lemma the_grammar_keywords_closed : grammar_keywords_closed the_grammar = true.
+Proof. vm_compute. reflexivity. Qed.
+
+(* the terminals of the root scanner whose pattern is NOT case-closed: exactly
+   those carrying the literal lower-case flag suffix  i  of strings / regexes *)
+Definition non_closed_terminals (g : grammar) : list str :=
+  map (fun p => term_name g (fst p)) (filter (fun p => negb (ci_closed (snd p))) (lx_terms (g_root_lexer g))).
+
+Lemma non_closed_terminals_spec :
+  non_closed_terminals the_grammar =
+    [Str "REGEXP1"; Str "DOUBLE_QUOTED_STRING"; Str "SINGLE_QUOTED_STRING"; Str "REGEXP2"; Str "ESCAPED_STRING"].
+Proof. vm_compute. reflexivity. Qed.
